@@ -163,29 +163,34 @@ impl Crypto {
         Ed25519KeyPair::from_seed_unchecked(&key).unwrap()
     }
 
+    /// Decodes a key from its text form. The base62 text cannot represent leading zero bytes, so they are restored here.
+    fn decode_key(text: &str) -> Option<[u8; 32]> {
+        let data = from_base62(text).ok()?;
+        if data.len() > 32 {
+            return None;
+        }
+        let mut key = [0; 32];
+        key[32 - data.len()..].clone_from_slice(&data);
+        Some(key)
+    }
+
     fn parse_keypair(privkey: &str, pubkey: &str) -> Result<Ed25519KeyPair, Error> {
-        let privkey = from_base62(privkey).map_err(|_| Error::InvalidConfig("Failed to parse private key"))?;
-        let pubkey = from_base62(pubkey).map_err(|_| Error::InvalidConfig("Failed to parse public key"))?;
+        let privkey = Self::decode_key(privkey).ok_or(Error::InvalidConfig("Failed to parse private key"))?;
+        let pubkey = Self::decode_key(pubkey).ok_or(Error::InvalidConfig("Failed to parse public key"))?;
         let keypair = Ed25519KeyPair::from_seed_and_public_key(&privkey, &pubkey)
             .map_err(|_| Error::InvalidConfig("Keys rejected by crypto library"))?;
         Ok(keypair)
     }
 
     fn parse_private_key(privkey: &str) -> Result<Ed25519KeyPair, Error> {
-        let privkey = from_base62(privkey).map_err(|_| Error::InvalidConfig("Failed to parse private key"))?;
+        let privkey = Self::decode_key(privkey).ok_or(Error::InvalidConfig("Failed to parse private key"))?;
         let keypair = Ed25519KeyPair::from_seed_unchecked(&privkey)
             .map_err(|_| Error::InvalidConfig("Key rejected by crypto library"))?;
         Ok(keypair)
     }
 
     fn parse_public_key(pubkey: &str) -> Result<Ed25519PublicKey, Error> {
-        let pubkey = from_base62(pubkey).map_err(|_| Error::InvalidConfig("Failed to parse public key"))?;
-        if pubkey.len() != ED25519_PUBLIC_KEY_LEN {
-            return Err(Error::InvalidConfig("Failed to parse public key"));
-        }
-        let mut result = [0; ED25519_PUBLIC_KEY_LEN];
-        result.clone_from_slice(&pubkey);
-        Ok(result)
+        Self::decode_key(pubkey).ok_or(Error::InvalidConfig("Failed to parse public key"))
     }
 
     pub fn public_key_from_private_key(privkey: &str) -> Result<String, Error> {
